@@ -172,6 +172,17 @@ func RunSession(spec SessionSpec) *SessionResult {
 		}
 		res.CloseErr = cli.Close()
 		res.CloseReturned = true
+		// Like an engine that is done with a plugin, keep the plugin's output flowing until it exits:
+		// on a rendezvous transport a trailing message (e.g. a late signal error report) would
+		// otherwise hold the server in its 60 s send timeout.
+		go func() {
+			buf := make([]byte, 4096)
+			for {
+				if _, err := res.S2C.Read(buf); err != nil {
+					return
+				}
+			}
+		}()
 	})
 	wall := spec.Wall
 	if wall == 0 {
@@ -183,6 +194,7 @@ func RunSession(spec SessionSpec) *SessionResult {
 	Y.Disarm()
 	cancel()
 	if res.Monitor.Outcome == "done" {
+		_ = res.S2C.CloseRead() // releases the drainer
 		snap := Settle(2 * time.Second)
 		for _, g := range snap.BlockedIn("atp.(*client)", res.BaseGID) {
 			res.Leaked = append(res.Leaked, g.State+" @ "+firstSDKFrame(g))
